@@ -290,7 +290,7 @@ def pPrimaryExpression (self : Self) : P Val := do
     let co ← tokCoord offTok
     pure (mk .FuncCall (some co) [mk .ID (some co) [.str offTok.val],
       mk .ExprList (some co) [.list [typ, desig]]])
-  else parseError "Invalid expression" (.text (← lexFilename))
+  else parseError "Invalid expression" (← lexFileLoc)
 
 /-- loop of `_parse_offsetof_member_designator` -/
 def pOffsetofLoop (self : Self) (node : Val) : P Val := do
@@ -352,7 +352,7 @@ def pDesignatorListLoop (self : Self) (acc : List Val) : P (List Val) := do
     else if (← accept "PERIOD").isSome then
       let i ← pIdentifierOrTypeid
       self (.designatorListLoop (acc ++ [i]))
-    else parseError "Invalid designator" (.text (← lexFilename))
+    else parseError "Invalid designator" (← lexFileLoc)
   else pure acc
 
 end PycModel
